@@ -58,7 +58,19 @@ var c17Numbers = []string{"-2.5", "0", "3.25", "100", "-0.125", "1", "2", "3"}
 
 func c17Env(history int, latest uint64) (*vEnv, Keeper, c17Service, types.Feed) {
 	e := newVEnv(types.StoreKey, 10)
-	rc := &serviceexported.RequestContext{State: serviceexported.RUNNING, BatchCounter: uint64(history) + 1}
+	// batches that failed (threshold not met) stored no value: the batch counters of the stored values may have
+	// a gap after the first value, and the batch reported now may come after further failed batches
+	gapIn, gapAfter := uint64(verifChoice("failedBatchInHistory", 2)), uint64(verifChoice("failedBatchBefore", 2))
+	batchOf := func(b int) uint64 {
+		if b >= 2 {
+			return uint64(b) + gapIn
+		}
+		return uint64(b)
+	}
+	rc := &serviceexported.RequestContext{State: serviceexported.RUNNING, BatchCounter: batchOf(history) + 1 + gapAfter}
+	if history == 0 {
+		rc.BatchCounter = 1 + gapAfter
+	}
 	calls := []string{}
 	sk := c17Service{rc: rc, exists: true, calls: &calls}
 	k := NewKeeper(e.cdc, e.key, sk)
@@ -66,7 +78,7 @@ func c17Env(history int, latest uint64) (*vEnv, Keeper, c17Service, types.Feed) 
 		LatestHistory: latest, RequestContextID: tmbytes.HexBytes{1}.String(), Creator: vAddr(1).String()}
 	k.SetFeed(e.ctx, feed)
 	for b := 1; b <= history; b++ {
-		k.SetFeedValue(e.ctx, "pair", uint64(b), latest, types.FeedValue{Data: strconv.Itoa(b) + ".00000000", Timestamp: time.Unix(int64(1000+b), 0)})
+		k.SetFeedValue(e.ctx, "pair", batchOf(b), latest, types.FeedValue{Data: strconv.Itoa(b) + ".00000000", Timestamp: time.Unix(int64(1000+b), 0)})
 	}
 	// neighbouring feeds whose names are a proper prefix / an extension of the feed's name, with histories of
 	// their own: every feed's history is its own
@@ -107,7 +119,11 @@ func VerifC17_HandlerResponse() {
 	var outputs []string
 	var nums []float64
 	for i := 0; i < n; i++ {
-		s := c17Numbers[verifChoice("value"+strconv.Itoa(i), len(c17Numbers))]
+		nn := len(c17Numbers)
+		if i > 0 && verifTier() == 0 {
+			nn = 4 // quick tier: the second provider reports one of the first four values
+		}
+		s := c17Numbers[verifChoice("value"+strconv.Itoa(i), nn)]
 		f, _ := strconv.ParseFloat(s, 64)
 		nums = append(nums, f)
 		outputs = append(outputs, `{"header":{},"body":{"rate":`+s+`}}`)
